@@ -68,7 +68,7 @@ pub fn run(r: &Req) -> Option<String> {
     // (also the plain element/output type matrix when both series share one element type `t`)
     if !deque && (crate::rollrun::regime(r) != "types" || !r.has("t2")) {
         if super::FNS1.contains(&f) {
-            return Some(crate::roll1_dispatch!(r, with_xs_all, with_xs_f, |view, OC, U, out| crate::roll1_valid_call!(f, view, OC, U, out, w, mp, r).unwrap()));
+            return Some(crate::roll1_dispatch!(r, with_xs_all, with_xs_f, yes, |view, OC, U, out| crate::roll1_valid_call!(f, view, OC, U, out, w, mp, r).unwrap()));
         }
         if super::FNS2.contains(&f) {
             return Some(crate::roll2_dispatch!(r, |view, view2, OC, U, out| crate::roll2_call!(f, view, view2, OC, U, out, w, mp, r).unwrap()));
